@@ -159,7 +159,7 @@ def specJudge (XS : XmlSpec.SpecExt) (t : Ty) (doc : Bytes) (status payload : St
     | .error why =>
       if why.startsWith "unsupported:" then none
       else if why.startsWith "ill:" then
-        -- character data outside the document element, written as text or as a CDATA section (repaired by 4f52948:
+        -- character data outside the document element, written as text or as a CDATA section (repaired by d51737b:
         -- the class is no longer listed as open, so any case of it is a violation)
         if why = "ill:text outside the root element" || why = "ill:CDATA outside the root element" then
           some ("xml-text-outside-root", "accepted: " ++ why)
